@@ -231,8 +231,10 @@ func (g *Gen) Leaf() *N {
 	}
 }
 
+// set members are drawn with repetition (up to 5): repeated and unsorted members are what the
+// parser's in-place sort/de-duplication has to cope with
 func (g *Gen) set() []string {
-	n := g.Rnd.Intn(4)
+	n := g.Rnd.Intn(6)
 	vs := []string{}
 	for i := 0; i < n; i++ {
 		vs = append(vs, g.val())
@@ -288,7 +290,7 @@ func DenseStyle() *Style {
 }
 func RandomStyle(rnd *rand.Rand) *Style {
 	return &Style{Rnd: rnd, SingleQuote: rnd.Intn(2) == 0, Dense: rnd.Intn(3) == 0, ExtraParens: []float64{0, 0.15, 0.4}[rnd.Intn(3)],
-		Flatten: rnd.Intn(2) == 0, WordAlt: rnd.Intn(2) == 0, ManyNots: rnd.Intn(3) == 0, SetNoise: rnd.Intn(2) == 0}
+		Flatten: rnd.Intn(2) == 0, WordAlt: rnd.Intn(2) == 0, ManyNots: rnd.Intn(3) == 0, SetNoise: rnd.Intn(2) == 0, SetRevDup: rnd.Intn(3) == 0}
 }
 
 func (st *Style) chance(p float64) bool { return st.Rnd != nil && st.Rnd.Float64() < p }
